@@ -247,6 +247,28 @@ def arbitrary(n, lang='en'):
 
 
 @functools.lru_cache(None)
+@functools.lru_cache(None)
+def inventory_trees(lang='en', everything=False):
+    """every category string shipped for the language (tag inventories, unary tables, category dictionary; with everything=True
+    also the seen-rule tables) as a leaf category -- and every third one as a node category -- of right-branching 3-leaf trees"""
+    from mc import data
+    want = ('ja',) if lang == 'ja' else ('en', 'en_rebank')
+    cats = []
+    for src, c in data.all_category_strings():
+        kind, v = src.split('.', 1)
+        if v in want and (everything or kind != 'seen_rules') and c not in cats:
+            cats.append(c)
+    labels = ARB_LABELS if lang == 'en' else ARB_JA_LABELS
+    out = []
+    for j in range(0, len(cats), 3):
+        a, b, c = (cats[(j + i) % len(cats)] for i in range(3))
+        lb1, lb2 = labels[(j // 3) % len(labels)], labels[(j // 3 + 1) % len(labels)]
+        hl = (j // 3) % 2 == 0
+        inner = ('B', c, (lb2[0], lb2[1], not hl), ('L', b, 1), ('L', c, 2))
+        out.append(('B', a, (lb1[0], lb1[1], hl), ('L', a, 0), inner))
+    return out
+
+
 def long_trees(lang='en'):
     """a few deep shapes with 11-13 leaves (two-digit offsets): left-branching, right-branching, balanced; head directions alternate"""
     cats = ARB_CATS if lang == 'en' else ARB_JA_CATS
